@@ -87,8 +87,8 @@ def xsd_two_namespaces(n: dict) -> dict:
     still be the right classes under every structure style."""
     e = I.esc_attr
     main = f'''<?xml version="1.0" encoding="UTF-8"?>
-<xs:schema xmlns:xs="http://www.w3.org/2001/XMLSchema" targetNamespace="urn:t" xmlns:t="urn:t" xmlns:o="urn:o" elementFormDefault="qualified">
-  <xs:import namespace="urn:o" schemaLocation="other.xsd"/>
+<xs:schema xmlns:xs="http://www.w3.org/2001/XMLSchema" targetNamespace="http://example.test/a/types" xmlns:t="http://example.test/a/types" xmlns:o="http://example.test/b/types" elementFormDefault="qualified">
+  <xs:import namespace="http://example.test/b/types" schemaLocation="other.xsd"/>
   <xs:element name="{e(n["root"])}">
     <xs:complexType>
       <xs:sequence>
@@ -97,6 +97,7 @@ def xsd_two_namespaces(n: dict) -> dict:
         <xs:element name="{e(n["e3"])}" type="o:{e(n["s1"])}" minOccurs="0"/>
       </xs:sequence>
       <xs:attribute name="{e(n["a1"])}" type="t:{e(n["s1"])}"/>
+      <xs:attribute name="{e(n["a2"])}" type="o:{e(n["s1"])}" default="{e(n["v2"])}"/>
     </xs:complexType>
   </xs:element>
   <xs:complexType name="{e(n["t1"])}">
@@ -108,7 +109,7 @@ def xsd_two_namespaces(n: dict) -> dict:
 </xs:schema>
 '''
     other = f'''<?xml version="1.0" encoding="UTF-8"?>
-<xs:schema xmlns:xs="http://www.w3.org/2001/XMLSchema" targetNamespace="urn:o" xmlns:o="urn:o" elementFormDefault="qualified">
+<xs:schema xmlns:xs="http://www.w3.org/2001/XMLSchema" targetNamespace="http://example.test/b/types" xmlns:o="http://example.test/b/types" elementFormDefault="qualified">
   <xs:complexType name="{e(n["t1"])}">
     <xs:sequence><xs:element name="{e(n["e3"])}" type="xs:int"/></xs:sequence>
     <xs:attribute name="{e(n["a2"])}" type="o:{e(n["s1"])}"/>
@@ -119,6 +120,30 @@ def xsd_two_namespaces(n: dict) -> dict:
 </xs:schema>
 '''
     return {"main.xsd": main, "other.xsd": other}
+
+
+def xsd_wrapper(n: dict) -> str:
+    """A repeating element next to a wrapper element (of a global type) whose single repeating child has the same name."""
+    e = I.esc_attr
+    return f'''<?xml version="1.0" encoding="UTF-8"?>
+<xs:schema xmlns:xs="http://www.w3.org/2001/XMLSchema" targetNamespace="urn:t" xmlns:t="urn:t" elementFormDefault="qualified">
+  <xs:element name="{e(n["root"])}">
+    <xs:complexType>
+      <xs:sequence>
+        <xs:element name="{e(n["e1"])}" type="xs:int"/>
+        <xs:element name="{e(n["e2"])}" type="t:{e(n["t1"])}"/>
+        <xs:element name="{e(n["e3"])}" minOccurs="0">
+          <xs:complexType><xs:sequence><xs:element name="{e(n["e1"])}" type="xs:int" maxOccurs="unbounded"/></xs:sequence></xs:complexType>
+        </xs:element>
+      </xs:sequence>
+      <xs:attribute name="{e(n["a1"])}" type="xs:string"/>
+    </xs:complexType>
+  </xs:element>
+  <xs:complexType name="{e(n["t1"])}">
+    <xs:sequence><xs:element name="{e(n["e1"])}" type="xs:string" maxOccurs="unbounded"/></xs:sequence>
+  </xs:complexType>
+</xs:schema>
+'''
 
 
 def dtd_skeleton(n: dict) -> str:
@@ -302,8 +327,11 @@ def pick_names(ch: Chooser, alphabet_names, alphabet_values):
 def h_xsd(ch: Chooser, kind: str):
     n, desc = pick_names(ch, HOSTILE_NCNAMES, HOSTILE_VALUES)
     if kind == "xsd-two-namespaces":
-        # what this skeleton is about is how modules import from each other: the structure style is a free dimension here
+        # what this skeleton is about is how modules import from each other: the structure style and relative imports are free dimensions here
         oi = ch.choose(5, "structure-style", free=True)
+        rel = ch.flag("relative-imports", free=True)
+    elif kind == "xsd-wrapper":
+        oi = [i for i, o in enumerate(OPTIONS) if o[0] in ("default", "wrapper", "compound")][ch.choose(3, "wrapper-option", free=True)]
     else:
         oi = ch.choose(len(OPTIONS), "options")
     oname, opts, conv = OPTIONS[oi]
@@ -311,6 +339,11 @@ def h_xsd(ch: Chooser, kind: str):
         sources = {"main.xsd": xsd_skeleton(n)}
     elif kind == "xsd-two-namespaces":
         sources = xsd_two_namespaces(n)
+        if rel:
+            opts = {**opts, "relative_imports": True}
+            oname += "+relative"
+    elif kind == "xsd-wrapper":
+        sources = {"main.xsd": xsd_wrapper(n)}
     elif kind == "xsd-no-namespace":
         sources = {"main.xsd": xsd_skeleton(n, None)}
     else:
@@ -457,6 +490,7 @@ def run(tier: str, seed: int) -> int:
         # (thorough: every option set x every hostile assignment on the namespaced XSD skeleton; the two other skeletons keep the default options)
         tasks.extend(split_deep(("c07.xsd", dict(kind=kind), opt_bound if kind == "xsd" else 0, ()), short=4, rounds=3))
     tasks.extend(split_deep(("c07.xsd", dict(kind="xsd-two-namespaces"), 0, ()), short=4, rounds=3))
+    tasks.extend(split_deep(("c07.xsd", dict(kind="xsd-wrapper"), 0, ()), short=4, rounds=3))
     # every option set on the default names (and on a fixed hostile assignment) in both tiers
     tasks.append(("c07.xsd", dict(kind="xsd"), 1, (0,)))
     tasks.extend(split_deep(("c07.samples.xml", dict(max_elems=3 if th else 2), 2 if th else 1, ()), short=3, rounds=2))
